@@ -68,6 +68,8 @@ func openReader(format string, src io.Reader) (io.Reader, error) {
 	switch format {
 	case "xz":
 		return xz.ReaderConfig{DictCap: 4096}.NewReader(src)
+	case "lzma2-4k":
+		return lzma.Reader2Config{DictCap: 4096}.NewReader2(src)
 	case "lzma2":
 		// raw LZMA2 declares no dictionary size: use the largest one any base stream was written with
 		return lzma.Reader2Config{DictCap: 65536}.NewReader2(src)
@@ -322,6 +324,42 @@ func C13(c *hx.Ctx) {
 		w2.Write(big)
 		w2.Close()
 		large = append(large, strm{"alone-big", "alone", b2.Bytes(), big})
+	}
+	// medium streams, several times longer than the 4 KiB window they are read with (the
+	// decoder's ring buffer wraps, also under the undelivered tail at the end of the stream),
+	// read in pieces of k bytes with a zero-length Read after every piece until the end
+	{
+		var med []strm
+		for li, n := range c.PickInts([]int{9000, 9500, 10061, 11000, 12288, 13000}, []int{8193, 9000, 9500, 10000, 10061, 10500, 11000, 11500, 12000, 12288, 12289, 13000, 20000}) {
+			plain := MakeData([]string{"text", "alternating", "lowentropy"}[li%3], n, c.Seed+int64(n))
+			for mi, cfg := range []lzma.WriterConfig{{DictCap: 4096}, {DictCap: 4096, SizeInHeader: true, Size: int64(n)}, {DictCap: 4096, SizeInHeader: true, Size: int64(n), EOSMarker: true}} {
+				var b bytes.Buffer
+				w, err := cfg.NewWriter(&b)
+				if err != nil {
+					continue
+				}
+				w.Write(plain)
+				w.Close()
+				med = append(med, strm{fmt.Sprintf("alone-4k-%d-mode%d", n, mi), "alone", b.Bytes(), plain})
+			}
+			med = append(med, strm{fmt.Sprintf("xz-4k-%d", n), "xz", libXZ(XZCfg{LC: 3, PB: 2, DictCap: 4096, BufSize: 4096, Check: 1, BlockSize: int64(n/2 + 1)}, plain), plain})
+			var b bytes.Buffer
+			w, _ := lzma.Writer2Config{DictCap: 4096}.NewWriter2(&b)
+			w.Write(plain)
+			w.Close()
+			med = append(med, strm{fmt.Sprintf("lzma2-4k-%d", n), "lzma2-4k", b.Bytes(), plain})
+		}
+		pieces := []int{1, 7, 100}
+		parallel(len(med)*len(pieces), func(i int) {
+			s := med[i/len(pieces)]
+			k := pieces[i%len(pieces)]
+			ks := make([]int, 0, 2*len(s.plain)/k+8)
+			for o := 0; o < len(s.plain)+2*k; o += k {
+				ks = append(ks, k, 0)
+			}
+			runSchedule(c, s.name, s.format, s.data, s.plain, ks, modes[i%len(modes)], c.Seed+int64(i))
+			c.Count(1, 1)
+		})
 	}
 	nr := c.Pick(6, 40)
 	parallel(len(large)*nr, func(i int) {
